@@ -43,6 +43,8 @@ func main() {
 			n = 40000
 		}
 		h.GenConvMix(rng, n, emit)
+	case "reply":
+		h.GenReply(rng, thorough, emit)
 	case "c02":
 		h.GenC02(rng, thorough, emit)
 	case "c03":
